@@ -6,7 +6,7 @@ CONSTANTS
   Timeouts = {1000000}
   Thresholds = {1000}
   Ages = {0}
-  PrevFees = 700
+  PrevFeeSet <- PFSmall
   AddFee = 1000
   Strict = TRUE
   Calls = 1
